@@ -1216,9 +1216,11 @@ class Item:
                 i = start
                 continue
             i += 1
-        if expect >= 0 and n != expect:
-            raise LostAnchor("drop-log: found %d log statements in %s, expected %d" % (n, self.path, expect))
-        self.log.append({"kind": "drop-log", "count": n, "args_with_arithmetic_or_index": risky,
+        # a different number of log statements than declared is tolerated as long as none of them has an argument that
+        # could panic (arithmetic / indexing): adding or removing a plain log line must not make the unit undecided
+        if expect >= 0 and n != expect and risky:
+            raise LostAnchor("drop-log: found %d log statements in %s, expected %d (and some have arithmetic or index arguments)" % (n, self.path, expect))
+        self.log.append({"kind": "drop-log", "count": n, "declared": expect, "args_with_arithmetic_or_index": risky,
                          "why": "logging only; arguments are not evaluated in the verified text"})
 
     def sinks(self, expect, fn="ext_sink"):
@@ -1397,3 +1399,55 @@ def find_const(repo, relpath, name):
                 txt = "const" + txt[len("static"):]
             return "pub " + txt
     return None
+
+
+_CLOSURE_PREV = {"(", ",", "=", "move", "{", ";", "return", "=>", "[", ":", "&&", "||", "!", "else"}
+
+
+def unannotated_closures(text):
+    """closure literals in `text` that carry no requires / ensures clause (Verus knows nothing about what such a closure
+    returns, so a proof that depends on one can fail for no semantic reason).  Returns their source snippets."""
+    toks = tokenize(text)
+    out = []
+    i = 0
+    n = len(toks)
+    while i < n:
+        s = toks[i].s
+        if s in ("|", "||") and i > 0 and toks[i - 1].s in _CLOSURE_PREV:
+            # `||` after `&&`, `(`, ... can also be a parameterless closure; an or-operator never follows these tokens
+            if s == "||":
+                j = i
+            else:
+                j = i + 1
+                depth = 0
+                while j < n and not (toks[j].s == "|" and depth == 0):
+                    if toks[j].s in OPEN:
+                        depth += 1
+                    elif toks[j].s in CLOSE:
+                        depth -= 1
+                        if depth < 0:
+                            break
+                    j += 1
+                if j >= n or toks[j].s != "|":
+                    i += 1
+                    continue
+            # tokens up to the body's `{` (or 12 tokens) decide whether a contract follows
+            k = j + 1
+            annotated = False
+            while k < n and k < j + 60:
+                t = toks[k].s
+                if t in ("requires", "ensures"):
+                    annotated = True
+                    break
+                if t in ("(", "["):
+                    k = match_close(toks, k) + 1
+                    continue
+                if t in ("{", ";", ",", ")", "]", "}"):
+                    break
+                k += 1
+            if not annotated:
+                out.append(render(toks[i:min(n, j + 8)]).strip()[:80])
+            i = j + 1
+            continue
+        i += 1
+    return out
